@@ -173,14 +173,15 @@ class Model:
         return out
 
     # -- entry -----------------------------------------------------------
-    def parse(self, entry, text, pos=0, through=None):
-        """Run rule `entry` (looked up from module level `through`, default most derived)."""
+    def parse(self, entry, text, pos=0, through=None, args=()):
+        """Run rule `entry` (looked up from module level `through`, default most derived); `args` are
+        Python values for a parameterised class used as entry point: C.parse(*args)(text)."""
         self.text = text
         self.memo = {}
         self.active = set()
         self.depth = 0
         lvl = self.top if through is None else through
-        return self.call_rule(entry, (), {}, pos, lvl)
+        return self.call_rule(entry, tuple(args), {}, pos, lvl)
 
     def skip(self, pos):
         pats = self.all_ignores()
